@@ -168,6 +168,8 @@ def parseOp (line : String) : Op :=
   | ["oprice", val, epoch, items] =>
     match epoch.toNat?, parseItems items with | some e, some l => .oprice val e l | _, _ => .bad
   | ["oholders", val, epoch, items] =>
+    -- a claim without a holders list fails stateless validation (modelled as the epoch-0 rejection)
+    if items == "nil" then .oholders val 0 [] else
     match epoch.toNat?, parseItems items with | some e, some l => .oholders val e l | _, _ => .bad
   | ["oend"] => .oend
   | "dump" :: what => .dump what
